@@ -707,16 +707,46 @@ def check_blank_line_hygiene(ctx: Ctx) -> None:
                                 ctx.ob("R-PREFIX-P4", f"{f.qual} :: empty code line", stripped or not uses_prefix,
                                        "an empty line inside a code block must be emitted under the right-stripped prefix "
                                        "(no trailing spaces are added)", where(f, n))
+            # the same decision written as a comprehension: (P + line if line else E for line in lines)
+            for x in walk_no_nested(f.node):
+                if not (isinstance(x, (ast.GeneratorExp, ast.ListComp)) and len(x.generators) == 1 and isinstance(x.generators[0].target, ast.Name)
+                        and isinstance(x.elt, ast.IfExp)):
+                    continue
+                var = x.generators[0].target.id
+                tt = norm(x.elt.test)
+                if tt not in (var, f"not {var}", f"{var} != ''", f"{var} == ''"):
+                    continue
+                found += 1
+                empty_arm = x.elt.orelse if tt in (var, f"{var} != ''") else x.elt.body
+                node = flow.node_of(x)
+                if node is None:
+                    continue
+                sl = prog.slice(f, empty_arm, node)
+                stripped = any(op in (".rstrip()", ".strip()") for op, _ in sl.ops) or all(s_[0] == "const" for s_ in sl.sources)
+                uses_prefix = any(a.endswith("_prefix") for a in sl.attrs()) or any("prefix" in p_ for p_ in sl.params())
+                ctx.ob("R-PREFIX-P4", f"{f.qual} :: empty code line", stripped or not uses_prefix,
+                       "an empty line inside a code block must be emitted under the right-stripped prefix "
+                       "(no trailing spaces are added)", where(f, node))
     ctx.require("R-PREFIX-P4", "code-line loops with an empty-line arm", found, 1)
 
 
-def _with_helpers(prog, m: FuncInfo) -> list[FuncInfo]:
+def _with_helpers(prog, m: FuncInfo, depth: int = 2) -> list[FuncInfo]:
+    """The method, the methods of its class it calls and the private module-level functions of its module they call."""
     out = [m]
-    for n in walk_no_nested(m.node):
-        if isinstance(n, ast.Call):
-            t = prog.resolve_call(m, n)
-            if isinstance(t, list) and t[0].cls is m.cls and t[0] not in out and t[0].name not in ("render", "render_children"):
-                out.append(t[0])
+    work = [(m, 0)]
+    while work:
+        f, d = work.pop(0)
+        for n in walk_no_nested(f.node):
+            if isinstance(n, ast.Call):
+                t = prog.resolve_call(f, n)
+                if not (isinstance(t, list) and len(t) == 1) or t[0] in out or isinstance(t[0].node, ast.Lambda):
+                    continue
+                c = t[0]
+                same_class = c.cls is not None and c.cls is m.cls and c.name not in ("render", "render_children")
+                private_fn = c.cls is None and c.parent is None and c.module is m.module and c.name.startswith("_")
+                if (same_class or private_fn) and d < depth:
+                    out.append(c)
+                    work.append((c, d + 1))
     return out
 
 
@@ -1082,8 +1112,11 @@ def check_fence_bound(ctx: Ctx) -> None:
                 if isinstance(sub, ast.JoinedStr) and any(isinstance(p, ast.FormattedValue) and isinstance(p.value, ast.Name)
                                                            and p.value.id in fence_vars for p in sub.values):
                     uses += 1
-    ctx.ob("R-BOUND", f"{code_f.qual} :: opening and closing fence", uses >= 2,
-           f"both fence lines must be built from the computed fence (found {uses} uses)", where(code_f, code_f.node))
+    if fence_vars:
+        # (decidable only where the fence is computed and laid out in one function; a helper that returns the fence leaves
+        # its use to the caller, which R-FIELD / R-PREFIX cover)
+        ctx.ob("R-BOUND", f"{code_f.qual} :: opening and closing fence", uses >= 2,
+               f"both fence lines must be built from the computed fence (found {uses} uses)", where(code_f, code_f.node))
     # the scanned text is the emitted text
     text_arg = b.get(scan_f.params[0])
     torg = origins(prog, code_f, text_arg, sn) if text_arg is not None else frozenset()
@@ -1097,8 +1130,9 @@ def check_fence_bound(ctx: Ctx) -> None:
         for h in loops:
             if any(isinstance(s, ast.Name) and s.id == text_arg.id for s in ast.walk(h.ast.iter)):
                 same = True
-    ctx.ob("R-BOUND", f"{code_f.qual} :: scanned text == emitted text", same,
-           "the fence length must be computed from the very text whose lines are emitted", where(code_f, sc))
+    if loops:
+        ctx.ob("R-BOUND", f"{code_f.qual} :: scanned text == emitted text", same,
+               "the fence length must be computed from the very text whose lines are emitted", where(code_f, sc))
 
 
 # ------------------------------------------------------------------------- per-block accumulators (typestate)
